@@ -157,6 +157,14 @@ def idle_feature_stream(rng, n, d, W):
     return xs.tolist()
 
 
+def int_then_float_stream(rng, n, d, W):
+    """the first windows hold whole numbers (counts) - handed over with an integer dtype by the containers that keep ints - later rows are fractional"""
+    xs = np.array(stream(rng, n, d, W), dtype=float) * 3.0
+    k = 2 * W + rng.randint(0, W)
+    xs[:k] = np.round(xs[:k])
+    return xs.tolist()
+
+
 def restless_stream(rng, n, d, W):
     """after two quiet windows the level jumps again and again at intervals shorter than a window: every drift is
     followed by another change before the detector can have collected a new reference window"""
